@@ -5,7 +5,7 @@ import subprocess
 import tempfile
 
 from vt import boot  # noqa
-from vt import net, drive, osslpeer, suites, pair, creds, mon
+from vt import net, drive, osslpeer, suites, pair, creds, mon, wire
 from vt.pair import settings, outcome
 
 from tlslite.tlsconnection import TLSConnection
@@ -218,6 +218,12 @@ def make_cases(ctx):
                     extra="hrr_size", group=group, sni=sni, alpns=alpns)
     for sid in (0x1301, 0x1302, 0x1303):
         yield "pskke-%04x" % sid, dict(extra="psk_ke", sid=sid)
+    # finite-field DHE below TLS 1.3 where the shared secret begins with a
+    # zero byte (one handshake in 256): RFC 5246 8.1.2 strips it
+    for ver in ((3, 3), (3, 1)):
+        for nz in (1,):
+            yield "dhe-lz-%d-%d" % (ver[1], nz), dict(extra="dhe_lz",
+                                                      ver=ver, nz=nz)
     # overlapping version ranges, default suites
     for role in ("tl_client", "tl_server"):
         for tmin in VERS:
@@ -591,6 +597,69 @@ def run_extra(ctx, cid, P):
                 ossl=type(o.error).__name__ if o.error else "no")
             return False
         return True
+    if kind == "dhe_lz":
+        # the tlslite client's private value is chosen (instead of drawn)
+        # so that the shared secret with the server's share read off the
+        # wire starts with nz zero bytes
+        import tlslite.keyexchange as KX
+        ver = tuple(P["ver"])
+        key["ver"] = pair.VNAME[ver]
+        key["role"] = "tl_client"
+        ts_ = pair.settings(minVersion=ver, maxVersion=ver,
+                            keyExchangeNames=["dhe_rsa"])
+        octx = osslpeer.context(True, ver, ver, cert=KEYS["rsa"][0],
+                                key=KEYS["rsa"][1])
+        octx.load_dh_params(dh_params_file())
+        o = osslpeer.OsslEnd(link, "server", octx)
+        sock = net.MemSock(link, "client")
+        conn = TLSConnection(sock)
+        real = KX.FFDHKeyExchange.get_random_private_key
+        st = {"x": None}
+
+        def steered(self):
+            ske = [b for t, b in wire.plain_handshake(link.records, "s2c")
+                   if t == 12]
+            if not ske:
+                return real(self)
+            b = ske[0]
+            pl = wire.u16(b, 0)
+            gl = wire.u16(b, 2 + pl)
+            yl = wire.u16(b, 4 + pl + gl)
+            p_ = int.from_bytes(b[2:2 + pl], "big")
+            ys = int.from_bytes(b[6 + pl + gl:6 + pl + gl + yl], "big")
+            n = (p_.bit_length() + 7) // 8
+            x = 0x1234567
+            for _ in range(6000):
+                x += 1
+                z = pow(ys, x, p_)
+                if z >> (8 * (n - P["nz"])) == 0:
+                    st["x"] = x
+                    return x
+            return real(self)
+        KX.FFDHKeyExchange.get_random_private_key = steered
+        try:
+            ok = hs(conn.handshakeClientCert(settings=ts_, async_=True),
+                    sock, o)
+        finally:
+            KX.FFDHKeyExchange.get_random_private_key = real
+        if st["x"] is None:
+            ctx.inconc("dhe_lz: no private value with a leading-zero "
+                       "secret found in %s" % cid)
+            return
+        ctx.count("dhe_leading_zero_secrets")
+        if ok:
+            data = mon.keystream(cid, 200)
+            try:
+                o.write(data)
+                tr = drive.Task("r", drive.aread(conn, 200, 200), sock)
+                drive_both(tr, o, link)
+                if tr.status != "done" or bytes(tr.result) != data:
+                    fail("data_o2t_corrupt", "%r %r" % (tr.status, tr.exc))
+            except Exception as e:   # noqa
+                fail("data_o2t_corrupt", repr(e))
+            ctx.cell("tuple", "tl_client|dhe_lz|%s|%d" % (pair.VNAME[ver],
+                                                         P["nz"]))
+        return
     if kind == "pha2":
         ts_ = pair.settings(minVersion=ver, maxVersion=ver)
         octx = osslpeer.context(False, ver, ver, cert=CKEYS[P["ckey"]][0],
